@@ -6,6 +6,8 @@ MaxIter = 9
 InitCounter = "period-1"
 MaskUpTo = "new"
 TimeBase = "own"
+OnRestart = "reset"
+MaxCalls = 2
 SPECIFICATION Spec
 PROPERTY NoStepBeforeStart
 PROPERTY StepsExactlyOnSchedule
